@@ -27,17 +27,25 @@ each else elseif elsewhen encapsulated end enumeration equation expandable exten
 function if import impure in initial inner input loop model not operator or outer output package parameter partial
 protected public pure record redeclare replaceable return stream then true type when while within""".split())
 
-COMP_NAMES = ["a", "b", "c", "x", "y", "z", "p", "q", "u", "v", "w", "k1", "k2", "T0", "h_in", "m_flow"]
-CLASS_NAMES = ["A", "B", "C", "M", "N", "Sub", "Inner", "Pkg", "Part", "Base", "Rec", "Conn"]
+COMP_NAMES = ["a", "b", "c", "x", "y", "z", "p", "q", "u", "v", "w", "k1", "k2", "T0", "h_in", "m_flow",
+              # identifiers that contain keywords: nothing may be decided by searching the text of a subtree
+              "initial_level", "h_initial", "initialized", "x_public", "public_key", "protected_v", "equation1",
+              "algorithm_a", "end_time", "der_x", "within_r", "annotation_a", "extends_b", "model_m", "import_x",
+              "final_v", "each1", "input_u", "output_y", "flow_rate", "parameter_p", "constant_c", "if_cond",
+              "loop_i", "connect_c", "when_w", "redeclare_r", "partial_p"]
+CLASS_NAMES = ["A", "B", "C", "M", "N", "Sub", "Inner", "Pkg", "Part", "Base", "Rec", "Conn", "Initial", "Public1",
+               "EndPoint", "Equations", "ModelX", "Protected_"]
 TYPE_PATHS = [["Real"], ["Integer"], ["Boolean"], ["String"], ["Real"], ["Real"], ["M"], ["Pkg", "T"],
-              ["Modelica", "SIunits", "Length"], ["Base"], ["A", "B", "C"]]
+              ["Modelica", "SIunits", "Length"], ["Base"], ["A", "B", "C"], ["Initializer"], ["Pkg", "initial_t"]]
 KINDS = ["model", "model", "model", "class", "block", "record", "connector", "package", "type", "function"]
 FLOW = [[], ["flow"], ["stream"]]
 VARIAB = [[], ["discrete"], ["parameter"], ["constant"]]
 CAUS = [[], ["input"], ["output"]]
 ALL_PREFIXES = [f + v + c for f in FLOW for v in VARIAB for c in CAUS]      # the 36 lists the grammar allows
-ATTRS = ["start", "min", "max", "nominal", "fixed", "unit", "each_k", "x", "y", "sub"]
-COMMENT_TEXTS = ["", "", "", "a comment", "the level, in m", "x; y = 3", "end A;", "public", "Real q", "1+2", "{}()"]
+ATTRS = ["start", "min", "max", "nominal", "fixed", "unit", "each_k", "x", "y", "sub", "initial_value", "final_x",
+         "redeclared", "public_", "equation_k"]
+COMMENT_TEXTS = ["", "", "", "a comment", "the level, in m", "x; y = 3", "end A;", "public", "Real q", "1+2", "{}()",
+                 "initial guess", "protected", "initial equation x = 1;", "algorithm", "extends Base"]
 
 
 # ---- expressions (canonical text) -------------------------------------------------------
@@ -63,7 +71,7 @@ def gen_expr(rng, depth=0):
             return gen_ref(rng, depth)
         if k < 0.93:
             return rng.choice(["true", "false"])
-        return '"%s"' % rng.choice(["s", "m/s", "a b"])
+        return '"%s"' % rng.choice(["s", "m/s", "a b", "initial", "end A;", "public", "equation", "algorithm x := 1;"])
     if r < 0.65:
         op = rng.choice(["+", "-", "*", "/", "^", "<", ">=", "==", "and", "or", ".*"])
         if op == "^":       # `primary ^ primary`: operands must be primaries; parenthesised ones are
@@ -72,8 +80,8 @@ def gen_expr(rng, depth=0):
     if r < 0.75:
         return "(%s%s)" % (rng.choice(["-", "+", "not "]), gen_expr(rng, depth + 1))
     if r < 0.88:
-        f = rng.choice(["sin", "f", "Pkg.g", "der", "max"])
-        n = 1 if f in ("sin", "der") else rng.randint(1, 3)
+        f = rng.choice(["sin", "f", "Pkg.g", "der", "max", "initial", "initialize", "Pkg.initial_f", "der_fn", "end_of"])
+        n = 0 if f == "initial" else 1 if f in ("sin", "der") else rng.randint(1, 3)
         return "%s(%s)" % (f, ", ".join(gen_expr(rng, depth + 1) for _ in range(n)))
     if r < 0.94:
         return "{%s}" % ", ".join(gen_expr(rng, depth + 1) for _ in range(rng.randint(1, 3)))
@@ -474,7 +482,8 @@ def render(f, rng=None):
         if rng is None:
             return " "
         r = rng.random()
-        return " " if r < 0.6 else "\n  " if r < 0.85 else " // note: Real q;\n " if r < 0.93 else " /* public */ "
+        return (" " if r < 0.6 else "\n  " if r < 0.85 else " // note: Real q;\n " if r < 0.90 else " /* public */ "
+                if r < 0.94 else " // initial equation\n " if r < 0.97 else " /* protected end A; */ ")
 
     def q(s):
         return '"%s"' % s
